@@ -25,6 +25,8 @@ import json
 import os
 import random
 import signal
+import sqlite3
+import time
 import unicodedata
 
 from vf.core.obs import Obs, cpu_guard, CpuBudget, exc_sig
@@ -57,7 +59,8 @@ ASSUMPTIONS = [
     "'redirects from or to a marked template' is read as part of the least fixed point ('exactly the closure'): a template marked "
     "through a redirect counts as marked for includers and for further redirects",
     "name resolution of used names follows the page-store title rules as stated in C10; leading/trailing blanks in names are not generated",
-    "per-analysis CPU budget 3 s (ITIMER_VIRTUAL; a normal analysis takes < 5 ms) stands for 'terminates'; a shard stops after 3 "
+    "per-analysis CPU budget 3 s (ITIMER_VIRTUAL for Python code + a SQLite progress handler installed by the harness on ctx.db_conn for "
+    "a statement that spins inside SQLite; a normal analysis takes < 5 ms) stands for 'terminates'; a shard stops after 3 "
     "budget overruns",
     "marks are read with get_all_pages (uncached); the memoised get_page view is property C10/C13",
 ]
@@ -100,7 +103,10 @@ def floors(tier):
 def shards(tier, seed):
     # VERIF_C17_SCALE < 1 shrinks the seeded parts for development runs (the floors then report INCONCLUSIVE)
     scale = float(os.environ.get("VERIF_C17_SCALE", "1"))
+    # _rlimit_cpu (vf.core.shard): a spin in C code that neither guard can reach kills the shard after this much CPU
+    # -> shard lost -> INCONCLUSIVE, long before the wall watchdog (a quick shard needs < 60 s CPU, a thorough one < 900 s)
     return [{"seed": seed * 1000 + i, "idx": i, "nsh": NSH, "tier": tier, "scale": scale,
+             "_rlimit_cpu": 600 if tier == "quick" else 3000,
              "random": int(RANDOM_PER_SHARD[tier] * scale),
              "exh3_sample": int(EXH3_SAMPLE_PER_SHARD[tier] * scale)} for i in range(NSH)]
 
@@ -117,6 +123,55 @@ def _classifier(table, calls):
         row = table[page.title]
         return set(row["u"]), bool(row["f"])
     return check
+
+
+class SqlStuck(CpuBudget):
+    """The CPU budget of one analysis ran out INSIDE a SQLite statement: the progress handler interrupted it."""
+
+
+def analyse(ctx, check):
+    """ctx.analyze_templates(check) under the per-analysis CPU budget.
+    Python-level spinning: vf.core.obs.cpu_guard (signal handler raises CpuBudget between bytecodes).
+    Spinning inside ONE SQLite statement (C code; the signal handler never gets to run): a progress handler on the
+    context's connection, called every 100 000 SQLite VM instructions, compares the process CPU time with the
+    start of the analysis and interrupts the statement once the budget is used up -> sqlite3.OperationalError
+    'interrupted' -> SqlStuck.  A logical verdict, independent of machine load and of the wall watchdog."""
+    t0 = time.process_time()
+    fired = [False]
+
+    def progress():
+        if fired[0] or time.process_time() - t0 > BUDGET:
+            fired[0] = True
+            return 1
+        return 0
+
+    conn = ctx.db_conn
+    conn.set_progress_handler(progress, 100000)
+    try:
+        with cpu_guard(BUDGET):
+            # cpu_guard arms a one-shot timer; an alarm that lands inside a callback whose caller swallows
+            # exceptions (sqlite trace / progress callback) would be lost -> re-arm it as a repeating timer; it
+            # starts a little after the progress handler's budget so that a stuck statement is named as such
+            signal.setitimer(signal.ITIMER_VIRTUAL, BUDGET + 1.0, 0.25)
+            ctx.analyze_templates(check)
+    except sqlite3.OperationalError as e:
+        if fired[0] or "interrupt" in str(e).lower():
+            raise SqlStuck("analyze_templates: a single SQLite statement was still running after %.0f s CPU "
+                           "(interrupted by the harness's progress handler): %r" % (BUDGET, e)) from None
+        raise
+    finally:
+        try:
+            conn.set_progress_handler(None, 0)
+        except Exception:
+            pass
+    if fired[0]:
+        # the code under test swallowed the interruption: it still did not finish its statement
+        raise SqlStuck("analyze_templates: a SQLite statement was interrupted after %.0f s CPU and the error was swallowed" % BUDGET)
+
+
+def stuck_cat(m, err):
+    cat = "cyclic-inclusion" if M.cyclic(m["inc"]) else "acyclic-inclusion"
+    return cat + "/stuck-in-sql-statement" if isinstance(err, SqlStuck) else cat
 
 
 def run_rounds(case, sql=None, again=False):
@@ -144,11 +199,7 @@ def run_rounds(case, sql=None, again=False):
                 table[p["t"]] = p
             calls = []
             try:
-                with cpu_guard(BUDGET):
-                    # cpu_guard arms a one-shot timer; an alarm that lands inside a callback whose caller swallows
-                    # exceptions (sqlite trace callback) would be lost -> re-arm it as a repeating timer
-                    signal.setitimer(signal.ITIMER_VIRTUAL, BUDGET, 0.25)
-                    ctx.analyze_templates(_classifier(table, calls))
+                analyse(ctx, _classifier(table, calls))
             except BaseException as e:
                 e.round = k
                 raise
@@ -157,9 +208,7 @@ def run_rounds(case, sql=None, again=False):
             # idempotence probe: the same analysis of the now unchanged store
             calls = []
             try:
-                with cpu_guard(BUDGET):
-                    signal.setitimer(signal.ITIMER_VIRTUAL, BUDGET, 0.25)
-                    ctx.analyze_templates(_classifier(table, calls))
+                analyse(ctx, _classifier(table, calls))
             except BaseException as e:
                 e.round = len(out) - 1
                 raise
@@ -220,7 +269,7 @@ def outcome(case):
         res = run_rounds(case, again=True)
     except CpuBudget as e:
         m = M.closure(M.graph_at(case, e.round))
-        return [("does-not-return", "cyclic-inclusion" if M.cyclic(m["inc"]) else "acyclic-inclusion",
+        return [("does-not-return", stuck_cat(m, e),
                  "analyze_templates used more than %.0f s CPU" % BUDGET)] if e.round == len(rounds) - 1 else \
                [("does-not-return", "earlier-round", "")]
     except Exception as e:
@@ -514,8 +563,10 @@ class Shard:
             if isinstance(err, CpuBudget):
                 obs.check("terminates")
                 self.overruns += 1
-                sig = "does-not-return/" + ("cyclic-inclusion" if M.cyclic(m["inc"]) else "acyclic-inclusion")
-                obs.violation(sig, "analyze_templates used more than %.0f s CPU; stack: %s" % (BUDGET, str(err)[-500:]), sub)
+                sig = "does-not-return/" + stuck_cat(m, err)
+                if isinstance(err, SqlStuck):
+                    obs.count("sql-statement-interrupted-by-progress-handler")
+                obs.violation(sig, "analyze_templates used more than %.0f s CPU; %s" % (BUDGET, str(err)[-500:]), sub)
                 if self.overruns >= MAX_OVERRUNS:
                     obs.inconclusive.append("shard stopped after %d analyses exceeded the CPU budget" % self.overruns)
                     raise Stop()
